@@ -5,11 +5,20 @@ use std::marker::PhantomPinned;
 use std::panic::{RefUnwindSafe, UnwindSafe};
 use std::pin::Pin;
 use std::ptr::NonNull;
+#[cfg(not(folo_verif))]
 use std::sync::atomic::{AtomicU8, Ordering};
+#[cfg(folo_verif)]
+use std::sync::Arc;
+#[cfg(not(folo_verif))]
 use std::sync::{Arc, Mutex};
 use std::task::{self, Poll, Waker};
 
 use awaiter_set::{Awaiter, AwaiterSet};
+
+#[cfg(folo_verif)]
+use crate::verif_sync::Mutex;
+#[cfg(folo_verif)]
+use crate::verif_sync::atomic::{AtomicU8, Ordering};
 
 use crate::NEVER_POISONED;
 
